@@ -588,7 +588,7 @@ def sqrt2_descriptor(f):
 SQRT2_REF = ([(1, '(p / 2)'), (0, None), (0, None), (0, None)], [(0, None), (1, '((p - 1) / 2)'), (0, None), (-1, '((p - 1) / 2)')])
 
 
-def run(ck):
+def _run_own(ck):
     facts = ck.facts
     ck.decided('D1 honest approx flag: every lossy mantissa shift is paired with the lost-bit test that sets APPROX; on every return path of Dyadic add/mul the result flags include the APPROX bit of both operands (exact-zero product shortcut excepted); From<f64> always sets it; Scalar4::approx is any()',
                'D2 order and zero: Ord::cmp is decided completely over the finite abstraction {neg,zero,pos}^2 x exponent order x mantissa order against the order of the reals; every other comparison of two exponents is dominated by zero tests of both operands',
@@ -725,3 +725,8 @@ def run(ck):
 
 def _ordname(v):
     return {-1: 'Less', 0: 'Equal', 1: 'Greater', None: '?'}.get(v, str(v))
+
+
+def run(ck, **kw):
+    _run_own(ck)
+    ck.include('C16', 'scalar phases are Phase values: from_phase / mul_phase rely on the canonical form and the operator impls of phase.rs (anchored here too)')
